@@ -132,8 +132,14 @@ type childSpec struct {
 	Kids  []childSpec
 }
 
+type docRoot struct {
+	Fn     string // exported entry point; the kernel is rooted here, the unexported builders are inlined
+	Signed bool   // this entry asks for the enveloped signature (the includeSig constant of the call)
+}
+
 type docSpec struct {
 	Fn, Space, Local string
+	Roots            []docRoot
 	Attrs            []attrSpec
 	Children         []childSpec
 	Order            []string // schema sequence of child tags
@@ -149,7 +155,7 @@ const (
 var issuerChild = childSpec{Tag: "saml:Issuer", TextAlt: map[string]string{`SP.ServiceProviderIssuer == ""`: "SP.IdentityProviderIssuer", `!(SP.ServiceProviderIssuer == "")`: "SP.ServiceProviderIssuer"}}
 
 var docSpecs = []docSpec{
-	{Fn: "(*SAMLServiceProvider).buildAuthnRequest", Space: "samlp", Local: "AuthnRequest",
+	{Fn: "AuthnRequest", Roots: []docRoot{{"(*SAMLServiceProvider).BuildAuthRequestDocument", true}, {"(*SAMLServiceProvider).BuildAuthRequestDocumentNoSig", false}}, Space: "samlp", Local: "AuthnRequest",
 		Attrs: []attrSpec{
 			{"xmlns:samlp", `"` + nsP + `"`, ""}, {"xmlns:saml", `"` + nsA + `"`, ""}, {"ID", idAP, ""}, {"Version", `"2.0"`, ""},
 			{"ProtocolBinding", `"urn:oasis:names:tc:SAML:2.0:bindings:HTTP-POST"`, ""}, {"AssertionConsumerServiceURL", "SP.AssertionConsumerServiceURL", ""},
@@ -160,22 +166,22 @@ var docSpecs = []docSpec{
 			{Tag: "samlp:RequestedAuthnContext", When: "!(SP.RequestedAuthnContext == nil)", Attrs: []attrSpec{{"Comparison", "SP.RequestedAuthnContext.Comparison", ""}},
 				Kids: []childSpec{{Tag: "saml:AuthnContextClassRef", Loop: "SP.RequestedAuthnContext.Contexts"}}}},
 		Order:  []string{"saml:Issuer", "ds:Signature", "samlp:Extensions", "saml:Subject", "samlp:NameIDPolicy", "saml:Conditions", "samlp:RequestedAuthnContext", "samlp:Scoping"},
-		SignFn: "(*SAMLServiceProvider).SignAuthnRequest", SignWhen: []string{"SP.SignAuthnRequests", "$includeSig"}},
-	{Fn: "(*SAMLServiceProvider).buildLogoutRequest", Space: "samlp", Local: "LogoutRequest",
+		SignFn: "(*SAMLServiceProvider).SignAuthnRequest", SignWhen: []string{"SP.SignAuthnRequests"}},
+	{Fn: "LogoutRequest", Roots: []docRoot{{"(*SAMLServiceProvider).BuildLogoutRequestDocument", true}, {"(*SAMLServiceProvider).BuildLogoutRequestDocumentNoSig", false}}, Space: "samlp", Local: "LogoutRequest",
 		Attrs: []attrSpec{{"xmlns:samlp", `"` + nsP + `"`, ""}, {"xmlns:saml", `"` + nsA + `"`, ""}, {"ID", idAP, ""}, {"Version", `"2.0"`, ""},
 			{"IssueInstant", instantAP, ""}, {"Destination", "SP.IdentityProviderSLOURL", ""}},
 		Children: []childSpec{issuerChild,
-			{Tag: "saml:NameID", Text: "$nameID", Attrs: []attrSpec{{"Format", "SP.NameIdFormat", ""}}},
-			{Tag: "samlp:SessionIndex", Text: "$sessionIndex"}},
+			{Tag: "saml:NameID", Text: "$1", Attrs: []attrSpec{{"Format", "SP.NameIdFormat", ""}}},
+			{Tag: "samlp:SessionIndex", Text: "$2"}},
 		Order:  []string{"saml:Issuer", "ds:Signature", "samlp:Extensions", "saml:BaseID", "saml:NameID", "saml:EncryptedID", "samlp:SessionIndex"},
-		SignFn: "(*SAMLServiceProvider).SignLogoutRequest", SignWhen: []string{"$includeSig"}},
-	{Fn: "(*SAMLServiceProvider).buildLogoutResponse", Space: "samlp", Local: "LogoutResponse",
+		SignFn: "(*SAMLServiceProvider).SignLogoutRequest"},
+	{Fn: "LogoutResponse", Roots: []docRoot{{"(*SAMLServiceProvider).BuildLogoutResponseDocument", true}, {"(*SAMLServiceProvider).BuildLogoutResponseDocumentNoSig", false}}, Space: "samlp", Local: "LogoutResponse",
 		Attrs: []attrSpec{{"xmlns:samlp", `"` + nsP + `"`, ""}, {"xmlns:saml", `"` + nsA + `"`, ""}, {"ID", idAP, ""}, {"Version", `"2.0"`, ""},
-			{"IssueInstant", instantAP, ""}, {"Destination", "SP.IdentityProviderSLOURL", ""}, {"InResponseTo", "$reqID", ""}},
+			{"IssueInstant", instantAP, ""}, {"Destination", "SP.IdentityProviderSLOURL", ""}, {"InResponseTo", "$2", ""}},
 		Children: []childSpec{issuerChild,
-			{Tag: "samlp:Status", Kids: []childSpec{{Tag: "samlp:StatusCode", Attrs: []attrSpec{{"Value", "$statusCodeValue", ""}}}}}},
+			{Tag: "samlp:Status", Kids: []childSpec{{Tag: "samlp:StatusCode", Attrs: []attrSpec{{"Value", "$1", ""}}}}}},
 		Order:  []string{"saml:Issuer", "ds:Signature", "samlp:Extensions", "samlp:Status"},
-		SignFn: "(*SAMLServiceProvider).SignLogoutResponse", SignWhen: []string{"$includeSig"}},
+		SignFn: "(*SAMLServiceProvider).SignLogoutResponse"},
 }
 
 func checkAttrs(c *Ctx, rule, fname, where, pos string, atoms map[string]bool, got []attrM, want []attrSpec) {
@@ -293,11 +299,9 @@ func ruleC15(c *Ctx) {
 	c.rule("C15-R5", "signing keeps the built content (shared with C13-R1): the signed document's children are [Child[0], signature, Child[1:]...] of a copy — every child built under R1–R4 is present once, in order")
 	signPlacement(c, "C15-R5")
 	c.rule("C15-R4", "child order: the children created on the root form a subsequence of the SAML schema sequence; the returned document's root is the built element, or Sign*(element) exactly under the signing condition")
-	for _, ds := range docSpecs {
-		res := c.kernel(ds.Fn, builderInline...)
-		if res == nil {
-			continue
-		}
+	for _, br := range builderRuns(c) {
+		ds, res := br.ds, br.res
+		_ = ds
 		fname := shortFn(res.Root)
 		n := 0
 		for _, t := range res.Terms {
@@ -355,7 +359,7 @@ func ruleC15(c *Ctx) {
 				c.bad("C15-R4", fname, "returned document has the built root", pos, "returned document never receives a root")
 				continue
 			}
-			signNow := true
+			signNow := br.signed
 			for _, w := range ds.SignWhen {
 				if !atoms[w] {
 					signNow = false
@@ -381,6 +385,60 @@ func childTags(m *elemM) string {
 		s = append(s, ch.tagString())
 	}
 	return strings.Join(s, ", ")
+}
+
+// builderRun: one exported entry point of a message kind with its kernel; positional placeholders $1, $2 of the spec
+// stand for the entry point's own parameters (whatever they are called).
+type builderRun struct {
+	ds     docSpec
+	res    *Result
+	signed bool
+}
+
+func builderRuns(c *Ctx) []builderRun {
+	var out []builderRun
+	for _, ds := range docSpecs {
+		for _, r := range ds.Roots {
+			res := c.kernel(r.Fn, builderInline...)
+			if res == nil {
+				continue
+			}
+			out = append(out, builderRun{ds: ds.forRoot(res.Root), res: res, signed: r.Signed})
+		}
+	}
+	return out
+}
+
+func (ds docSpec) forRoot(root *ssa.Function) docSpec {
+	sub := func(s string) string {
+		for i := len(root.Params) - 1; i >= 1; i-- {
+			s = strings.ReplaceAll(s, fmt.Sprintf("$%d", i), "$"+root.Params[i].Name())
+		}
+		return s
+	}
+	var subAttrs func(as []attrSpec) []attrSpec
+	subAttrs = func(as []attrSpec) []attrSpec {
+		out := make([]attrSpec, len(as))
+		for i, a := range as {
+			a.Value = sub(a.Value)
+			out[i] = a
+		}
+		return out
+	}
+	var subKids func(cs []childSpec) []childSpec
+	subKids = func(cs []childSpec) []childSpec {
+		out := make([]childSpec, len(cs))
+		for i, ch := range cs {
+			ch.Text = sub(ch.Text)
+			ch.Attrs = subAttrs(ch.Attrs)
+			ch.Kids = subKids(ch.Kids)
+			out[i] = ch
+		}
+		return out
+	}
+	ds.Attrs = subAttrs(ds.Attrs)
+	ds.Children = subKids(ds.Children)
+	return ds
 }
 
 var builderInline = []string{"*", "-(*SAMLServiceProvider).SignAuthnRequest", "-(*SAMLServiceProvider).SignLogoutRequest", "-(*SAMLServiceProvider).SignLogoutResponse",
@@ -502,11 +560,9 @@ func ruleC13(c *Ctx) {
 	// R5
 	c.rule("C13-R5", "what is signed survives serialisation: the builders fill the tree only through CreateElement / CreateAttr / SetText (escaped, canonicalisation-stable); no CDATA, raw character data, comments or foreign children (shared with C15-R1)")
 	n5 := 0
-	for _, ds := range docSpecs {
-		res := c.kernel(ds.Fn, builderInline...)
-		if res == nil {
-			continue
-		}
+	for _, br := range builderRuns(c) {
+		ds, res := br.ds, br.res
+		_ = ds
 		for _, t := range res.Terms {
 			if !t.accepting(res.Root) {
 				continue
@@ -572,11 +628,9 @@ func ruleC18(c *Ctx) {
 	c.rule("C18-R3", "version / variant transforms evaluated over all 256 byte values: byte 6 -> 0100xxxx, byte 8 -> 10xxxxxx with the other bits preserved; no other byte is written after the read")
 	c.rule("C18-R4", "String(): the returned text is the layout hex(u[0:4]) '-' hex(u[4:6]) '-' hex(u[6:8]) '-' hex(u[8:10]) '-' hex(u[10:16]) in lower-case hex, produced by Sprintf(%x…), hex.Encode into a fully covered buffer, or hex.EncodeToString concatenation")
 	n := 0
-	for _, ds := range docSpecs {
-		res := c.kernel(ds.Fn, builderInline...)
-		if res == nil {
-			continue
-		}
+	for _, br := range builderRuns(c) {
+		ds, res := br.ds, br.res
+		_ = ds
 		fname := shortFn(res.Root)
 		for _, t := range res.Terms {
 			if !t.accepting(res.Root) {
@@ -1344,11 +1398,9 @@ func seqSegments(t *Terminal, v Val) []string {
 // only if the Issuer is always there.
 func issuerFirst(c *Ctx, rule string) {
 	n := 0
-	for _, ds := range docSpecs {
-		res := c.kernel(ds.Fn, builderInline...)
-		if res == nil {
-			continue
-		}
+	for _, br := range builderRuns(c) {
+		ds, res := br.ds, br.res
+		_ = ds
 		fname := shortFn(res.Root)
 		for _, t := range res.Terms {
 			if !t.accepting(res.Root) {
